@@ -8,6 +8,7 @@ vars == <<l, viol, nchecked>>
 Init == l = 1 /\ viol = <<>> /\ nchecked = 0
 Clauses(e) ==
     (IF e.op = "terminated" THEN {"C35.terminated/" \o e.during} ELSE {})
+    \cup (IF e.op = "hung" THEN {"C35.hang/" \o e.during} ELSE {})      \* an operation on node / daemon never returned (driver watchdog)
     \cup (IF Has(e, "out") /\ e.out = "threw" THEN {"C35.exception-escaped/" \o e.op} ELSE {})
     \cup (IF Has(e, "out") /\ e.out = "connect-failed" THEN {"C35.control-no-answer/" \o e.op} ELSE {})
     \cup (IF Has(e, "ping") /\ ~e.ping THEN {"C35.daemon-unresponsive"} ELSE {})
